@@ -1611,6 +1611,20 @@ func (c *layoutCtx) loops() map[int]*Event {
 					}
 				}
 			})
+			// a loop of the path itself left from inside an iteration: the conditions of that exit are the path conditions
+			// recorded after the loop that speak of the loop's variables in that iteration
+			for _, e := range c.path.Events {
+				if e.Kind != EvRep || !e.Partial || e.NCond > len(c.path.Conds) {
+					continue
+				}
+				var ex []Cond
+				for _, cd := range c.path.Conds[e.NCond:] {
+					if cd.V != nil && cd.V.Contains(func(x *Val) bool { return x.Op == "loopvar" && x.ID == e.LoopID }) {
+						ex = append(ex, cd)
+					}
+				}
+				c.loopIdx[exitCondsKey(e.LoopID)] = &Event{Iter: []*Arm{{Conds: ex}}}
+			}
 		}
 	}
 	return c.loopIdx
@@ -1659,6 +1673,9 @@ func scanTrim(sl *Val, loops map[int]*Event) (side string, pad *Val, ok bool) {
 
 // forkCondsKey: pseudo loop id under which valuePath hands down the conditions of the fork an alternative comes from.
 const forkCondsKey = -1
+
+// exitCondsKey: pseudo loop id under which the conditions of a path's own early exit from loop id are kept.
+func exitCondsKey(id int) int { return -(1000 + id) }
 
 // tileBaseKey: pseudo loop id under which valuePath is told which sub-slice of a block read stands for "the bytes
 // read" (a text field cut out of a record that was read in one piece).
@@ -1724,8 +1741,28 @@ func scanTrimGen(W, lo, hi *Val, loops map[int]*Event) (string, *Val, bool) {
 			cands = append(cands, cand{loop: l, right: false, bound: affOf(lo)})
 		}
 	}
+	if os.Getenv("FPDEBUG") == "scan" {
+		fmt.Fprintln(os.Stderr, "SCANGEN W", W.Pretty(), "lo", valOrNil(lo), "hi", valOrNil(hi), "empty", empty, "cands", len(cands), "loops", len(loops))
+		for id, l := range loops {
+			fmt.Fprintln(os.Stderr, "   loop", id, "partial", l.Partial, "arms", len(l.Iter))
+			for _, a := range l.Iter {
+				for _, c := range a.Conds {
+					fmt.Fprintln(os.Stderr, "      cond", c.String())
+				}
+				for k, v := range a.Next {
+					fmt.Fprintln(os.Stderr, "      next", k, v.Pretty())
+				}
+			}
+		}
+	}
 	for _, c := range cands {
-		if p, ok := verifyScanGen(c.loop, W, c.right, c.bound, exitConds); ok {
+		ec := exitConds
+		if loops[forkCondsKey] == nil {
+			if f := loops[exitCondsKey(c.loop.LoopID)]; f != nil && len(f.Iter) == 1 {
+				ec = f.Iter[0].Conds
+			}
+		}
+		if p, ok := verifyScanGen(c.loop, W, c.right, c.bound, ec); ok {
 			if c.right {
 				return "right", p, true
 			}
